@@ -84,3 +84,8 @@ add("C11", "model_checking",
     "A real Mirror whose view outputs are unbuffered (as tmengine wires them) with the harness playing the state machine (round entrance, view reader) and the gossip strategy: four scripted histories (growing votes, one nil-precommit round, two consecutive nil-precommit rounds, a minority-prevote jump) are delivered, and after every message each consumer either reads everything offered or stays stalled (all combinations); both resume at the end. Per consumer and (height, round): versions strictly increase, votes and proposals only grow; at quiescence gossip holds the mirror's latest voting view and the state machine the latest view of its round; the precommits that justified leaving a nil-committed round reached both consumers; a skipped round is announced by a jump-ahead.",
     "Bounds: 3 validators, 2-3 messages per script, stall/read choices at message boundaries only (no preemption inside the kernel loop; deterministic cooperative schedule otherwise). Signature validity is an uninterpreted predicate with the script's signatures assumed authentic.",
     "symbolic execution of go/ssa + SMT; consumer speeds as explored choices, real mirror+kernel threads", "§5 C11")
+
+add("C03", "other",
+    "C03 quantifies over networks of engines, delivery schedules, partitions and restarts, which symbolic execution of one process cannot encode. What IS decided, by the solver on the real commit rule, is the pairwise commit-state lemma: for two node states at one height holding admitted precommit sets for A (round r1) and B != A (round r2 >= r1) — signer sets, Byzantine set and 4 validator powers fully symbolic, Byzantine power < 1/3, no honest validator in both sets — the real checkVotingPrecommitViewShift/ShiftVotingToCommitting cannot commit A at one node and B at the other (the quorum-intersection argument is discharged by the solver as infeasibility of the 'both commit' path).",
+    "Premises (assumptions, not decided here): honest validators sign at most one precommit per round (C02) and respect the lock rule across rounds (consensus-strategy/driver code); vote summaries equal the sums over admitted signers (C06-H1); thresholds per C18. Network schedules, message loss, partitions, restarts of N engines, and contiguous finalization (C08) are outside this check.",
+    "symbolic execution of go/ssa + SMT (cvc5 bv-as-int); conditional lemma, not a network exploration", "§5 C03")
